@@ -170,6 +170,13 @@ func Start(ds DataSource, queuedRequests chan func(), Npresamp int, Nsamples int
 // This will be a long-running goroutine, as long as a source is active.
 func CoreLoop(ds DataSource, queuedRequests chan func()) {
 	defer ds.RunDoneDeactivate()
+	// However the loop ends (Stop, an error block, a closed data channel), end any file writing first,
+	// so that the files are flushed and closed and the writing state does not outlive the run.
+	defer func() {
+		if ds.WritingIsActive() {
+			ds.WriteControl(&WriteControlConfig{Request: "STOP"})
+		}
+	}()
 	nextBlock := ds.getNextBlock()
 
 	for {
